@@ -517,6 +517,20 @@ def roundTrip (P : Params) (fuel : Nat) (s : S) (scope : List Nat) (comps : List
   | (s', none) => (s', none)
   | (_, some _) => (s, some .serial)
 
+/-! ## values that change under the channels
+
+A channel stores a REFERENCE.  When the other holder of a mutable value (a list, a dict) changes it in
+place, every channel — and every cached input dict, every argument tuple of a job that is still out —
+that holds that object holds the changed value from then on, without any assignment.  `mutateS k k'`:
+the object that was `d k` is `d k'` now.  Nothing else moves; in particular no hint is consulted. -/
+
+def substVal (k k' : Nat) (v : Val) : Val := if v = .d k then .d k' else v
+
+def mutateS (s : S) (k k' : Nat) : S :=
+  { s with val := fun c => substVal k k' (s.val c),
+           cached := fun n => (s.cached n).map (List.map (substVal k k')),
+           pending := fun n => (s.pending n).map (List.map (substVal k k')) }
+
 /-! ## operations -/
 
 inductive Op
@@ -535,6 +549,7 @@ inductive Op
   | roundTrip (scope : List Nat) (comps : List Comp)
   | submit (n : Nat) (kw : List (Nat × Arg))
   | complete (n : Nat)
+  | mutate (k k' : Nat)
   deriving Repr
 
 def wrap (r : S × Option Err) : S × Out :=
@@ -555,6 +570,7 @@ def step (P : Params) (fuel : Nat) (s : S) : Op → S × Out
   | .run n kw => runAny P fuel fuel s n kw
   | .submit n kw => submitRun P fuel s n kw
   | .complete n => completeRun P fuel s n
+  | .mutate k k' => (mutateS s k k', .ok)
   | .setStrict c b => ({ s with strict := updF s.strict c b }, .ok)
   | .flag n r f => ({ s with running := updF s.running n r, failed := updF s.failed n f }, .ok)
   | .roundTrip scope comps => wrap (roundTrip P fuel s scope comps)
